@@ -2,7 +2,7 @@
 # tools/wave_import.sh <property> <worktree> <first new index>   e.g.  tools/wave_import.sh C16 /tmp/mut4/C16 7
 # Imports <worktree>/OUT/m1, m2, ... as <property>-m<index>, m<index+1>, ... (confirmation by tools/import_mutant.py).
 P="$1"; WT="$2"; K="$3"
-export FV_SEED_ORIGIN="fresh sub-agent (wave 4) given only the property text, one line per earlier change to avoid, and a scratch worktree of /repo (nothing from /verif)"
+export FV_SEED_ORIGIN="fresh sub-agent (wave ${FV_WAVE:-4}) given only the property text, one line per earlier change to avoid, and a scratch worktree of /repo (nothing from /verif)"
 for d in "$WT"/OUT/m*; do
   [ -f "$d/patch.diff" ] || continue
   EXTRA=$(head -8 "$d/demo.rs" | grep -o -- '--features[ =][a-z,]*' | head -1)
